@@ -144,6 +144,7 @@ func childrenChangeToProto(change *resource.CollectionChange) *traits.PullChildr
 // The returned slice will be sorted in ascending order by Trait.Name.
 func traitUnion(has []*traits.Trait, more ...trait.Name) []*traits.Trait {
 	// has should be sorted by Trait.Name
+	has = append([]*traits.Trait(nil), has...) // has belongs to the stored child, don't edit it in place
 	for _, t := range more {
 		ts := string(t)
 		insertIndex := sort.Search(len(has), func(i int) bool {
@@ -166,6 +167,7 @@ func traitUnion(has []*traits.Trait, more ...trait.Name) []*traits.Trait {
 // The returned slice will be sorted in ascending order by Trait.Name.
 func traitRemove(has []*traits.Trait, remove ...trait.Name) []*traits.Trait {
 	// has should be sorted by Trait.Name
+	has = append([]*traits.Trait(nil), has...) // has belongs to the stored child, don't edit it in place
 	for _, t := range remove {
 		ts := string(t)
 		insertIndex := sort.Search(len(has), func(i int) bool {
